@@ -8,6 +8,7 @@ import (
 	"flag"
 	"fmt"
 	"os"
+	"regexp"
 	"runtime/debug"
 	"strings"
 	"testing"
@@ -35,6 +36,7 @@ var (
 	fHarness  = flag.String("sim.harness", "", "restrict to this harness")
 	fMaxViol  = flag.Int("sim.maxviol", 3, "stop after this many violations")
 	fHashOnly = flag.Bool("sim.hashonly", false, "selftest mode: print 'seed hash' per run to -sim.out, no oracle accounting")
+	fKnown    = flag.String("sim.known", "", "known findings of this property: class\tsig-regex entries separated by newlines; matching violations are recorded once and do not count towards -sim.maxviol")
 	fShrinkS  = flag.Float64("sim.shrinkbudget", 45, "wall-clock budget for minimisation in seconds")
 )
 
@@ -146,6 +148,7 @@ type aggregate struct {
 	Precond     int               `json:"precond"`
 	Inconcl     int               `json:"inconclusive"`
 	Violations  int               `json:"violations"`
+	KnownHits   int               `json:"known_hits"`
 	NonTrivial  int               `json:"nontrivial"`
 	Steps       uint64            `json:"steps"`
 	SimNs       int64             `json:"sim_ns"`
@@ -270,6 +273,34 @@ func doRunSeed(t *testing.T) {
 		writeJSON(*fOut, rf)
 	}
 	fmt.Printf("RUNSEED verdict=%s class=%s hash=%s\n", rec.Verdict, rf.Class, rec.LogHash)
+}
+
+// knownMatch returns the matching known-finding entry ("" if none) when every violation of the run matches one.
+func knownMatch(vs []Violation) string {
+	if *fKnown == "" || len(vs) == 0 {
+		return ""
+	}
+	first := ""
+	for _, v := range vs {
+		hit := ""
+		for _, ent := range strings.Split(*fKnown, "\n") {
+			parts := strings.SplitN(ent, "\t", 2)
+			if len(parts) != 2 || (parts[0] != "" && parts[0] != v.Class) {
+				continue
+			}
+			if ok, _ := regexp.MatchString(parts[1], v.Sig); ok {
+				hit = ent
+				break
+			}
+		}
+		if hit == "" {
+			return ""
+		}
+		if first == "" {
+			first = hit
+		}
+	}
+	return first
 }
 
 func tail(xs []string, n int) []string {
@@ -412,6 +443,7 @@ func doSearch(t *testing.T) {
 		defer hashOut.Flush()
 	}
 	traceSet := map[string]struct{}{}
+	knownSeen := map[string]bool{}
 	ntSet := map[string]struct{}{}
 	for i := 0; ; i++ {
 		if *fMaxRuns > 0 && i >= *fMaxRuns {
@@ -481,7 +513,15 @@ func doSearch(t *testing.T) {
 		case "harness-panic":
 			agg.Errors = append(agg.Errors, fmt.Sprintf("seed %d: %s", seed, rec.Panic))
 		case "violation":
-			agg.Violations++
+			if kn := knownMatch(rec.Viol); kn != "" {
+				agg.KnownHits++
+				if knownSeen[kn] {
+					break
+				}
+				knownSeen[kn] = true
+			} else {
+				agg.Violations++
+			}
 			rf := mkReplay(rec, cfg)
 			path := fmt.Sprintf("%s.viol.%d.json", strings.TrimSuffix(*fOut, ".json"), seed)
 			if err := writeJSON(path, rf); err == nil {
